@@ -329,11 +329,25 @@ func genPoss(r *core.Rand) gPoss {
 	if wide && r.Bool() {
 		p.Name = wideTok(r, r.Intn(8), "")
 	}
+	// tokens built around the literals of the package's own source (see core.SourceLiterals)
+	const depReserved = "(),|:[]<>!${}= \t\r\n"
+	lit := func(base string, chance int) string {
+		if r.Chance(1, chance) {
+			if t := r.LitToken("dependency", base, depReserved); t != "" {
+				return t
+			}
+		}
+		return base
+	}
+	if n := lit(p.Name, 12); n != p.Name && n[0] != '.' && n[0] != '-' {
+		p.Name = n
+	}
 	if r.Chance(1, 4) {
 		p.Qual = r.Pick([]string{"any", "native", "amd64", "all", "armhf", "linux-any"})
 		if wide && r.Bool() {
 			p.Qual = wideTok(r, r.Intn(6), "")
 		}
+		p.Qual = lit(p.Qual, 10)
 	}
 	if r.Chance(1, 2) {
 		p.Op = r.Pick(depOps)
@@ -351,6 +365,7 @@ func genPoss(r *core.Rand) gPoss {
 			if wide && r.Chance(1, 3) {
 				a = wideTok(r, r.Intn(6), "")
 			}
+			a = lit(a, 10)
 			p.Archs = append(p.Archs, a)
 		}
 	}
@@ -361,6 +376,7 @@ func genPoss(r *core.Rand) gPoss {
 			if wide || r.Chance(1, 8) {
 				nm = wideTok(r, r.Intn(8), "")
 			}
+			nm = lit(nm, 5)
 			set = append(set, gStage{Not: r.Bool(), Name: nm})
 		}
 		p.Stages = append(p.Stages, set)
@@ -631,9 +647,35 @@ func streamDepparse(g *core.G) {
 	}
 }
 
+func isWord(s string) bool {
+	for i := 0; i < len(s); i++ {
+		c := s[i]
+		if !(c >= 'a' && c <= 'z' || c >= 'A' && c <= 'Z' || c >= '0' && c <= '9') {
+			return false
+		}
+	}
+	return len(s) > 0
+}
+
+func contains(xs []string, x string) bool {
+	for _, y := range xs {
+		if x == y {
+			return true
+		}
+	}
+	return false
+}
+
 func streamArch(g *core.G) {
 	r := g.R
 	parts := []string{"any", "all", "gnu", "linux", "musl", "kfreebsd", "amd64", "x", ""}
+	// every word the package's own source spells out is a candidate keyword: names built from
+	// those words (next to the fixed vocabulary) are parsed, rendered and re-parsed too
+	for _, l := range core.SourceLiterals("dependency") {
+		if isWord(l) && !contains(parts, l) && len(parts) < 14 {
+			parts = append(parts, l)
+		}
+	}
 	var names []string
 	for _, a := range parts {
 		names = append(names, a)
